@@ -281,6 +281,8 @@ RULES = [
     ("C20-R4", "filter verdicts, negation, comments, syntax directive", r4),
     ("C11-R2", "ignore option words (git/hg/dock, no*) and their effects [shared with C11]", lambda ctx: __import__("c11").r2(ctx)),
     ("C20-R5", "the repository of a root is found by upward search (Repository::discover)", lambda ctx: __import__("extra2").repository_discovered_upwards(ctx)),
+    ("X-CANON", "util::canonical_path answers with the path resolved by fs::canonicalize (no shortcut for paths that look canonical) [shared]", lambda ctx: __import__("extra2").canonical_path_is_canonical(ctx)),
+    ("C20-R6", "ignore patterns are anchored at the directory holding the ignore file", lambda ctx: r6(ctx)),
 ]
 
 EXPLANATION = (
@@ -296,3 +298,81 @@ ASSUMPTIONS = ["rustc's HIR faithfully represents the source; exporter and rule 
                "git2::Repository::is_path_ignored implements git's rules"]
 NOT_DECIDED = ["git's verdict (libgit2)", "the complete glob dialects of hg and docker (character classes, escapes)",
                "order sensitivity of negated docker patterns", "ignore files in sub-directories of the root"]
+
+
+def r6(ctx):
+    """the patterns of an ignore file are anchored at the directory that holds the file: in the call parse_hgignore(file, dir)
+    / parse_dockerignore(file, dir), `file` is `dir.join("<name>")` — followed through the parameters of the helper that makes
+    the call up to the search for the file"""
+    import sem
+    n = 0
+    for tool, parse_fn, fname in (("hg", "ignore::hg::parse_hgignore", ".hgignore"), ("docker", "ignore::docker::parse_dockerignore", ".dockerignore")):
+        sites = []
+        for name in sorted(ctx.prog.fns):
+            if not name.startswith("ignore::%s::" % tool) or "{closure" in name:
+                continue
+            h = ctx.prog.hir(name)
+            if h is None:
+                continue
+            for c in walk_exprs(h):
+                if c["k"] == "Call" and str(c.get("callee", "")) == parse_fn and len(c["args"]) == 2:
+                    sites.append((name, h, c))
+        sites = [st for st in sites if st[0] != parse_fn]       # an included file is parsed by a recursive call with the same directory
+        if not sites:
+            ctx.violation("ignore-dir/%s/anchor" % tool, "ignore::%s" % tool, "call of %s not found" % short(parse_fn, 1))
+            continue
+        for name, h, c in sites:
+
+            def resolve_root(fn_name, hir, expr, depth=0):
+                """(function, id of the local the expression is rooted in), parameters followed to the single caller's argument"""
+                r = sem.root_res(expr, Locals(hir))
+                ps = ctx.prog.fns[fn_name].get("params", [])
+                ids = [q.get("id") for q in ps]
+                if r in ids and depth < 3:
+                    idx = ids.index(r)
+                    callers = []
+                    for cn in sorted(ctx.prog.fns):
+                        if "{closure" in cn:
+                            continue
+                        ch = ctx.prog.hir(cn)
+                        if ch is None:
+                            continue
+                        for cc in walk_exprs(ch):
+                            if cc["k"] == "Call" and str(cc.get("callee", "")) == fn_name and len(cc["args"]) == len(ps):
+                                callers.append((cn, ch, cc))
+                    if len(callers) == 1:
+                        cn, ch, cc = callers[0]
+                        return resolve_root(cn, ch, cc["args"][idx], depth + 1)
+                return fn_name, r
+
+            def file_expr(fn_name, hir, expr, depth=0):
+                """the expression the file argument is defined by (`X.join(name)`), through lets and parameters"""
+                locs = Locals(hir)
+                e = peel(locs.chase(peel(expr)))
+                ps = ctx.prog.fns[fn_name].get("params", [])
+                ids = [q.get("id") for q in ps]
+                if e["k"] == "Path" and e.get("rk") == "Local" and e["res"] in ids and depth < 3:
+                    idx = ids.index(e["res"])
+                    for cn in sorted(ctx.prog.fns):
+                        ch = ctx.prog.hir(cn) if "{closure" not in cn else None
+                        if ch is None:
+                            continue
+                        for cc in walk_exprs(ch):
+                            if cc["k"] == "Call" and str(cc.get("callee", "")) == fn_name and len(cc["args"]) == len(ps):
+                                return file_expr(cn, ch, cc["args"][idx], depth + 1)
+                return fn_name, hir, e
+            ffn, fh, fe_p = file_expr(name, h, c["args"][0])
+            n += 1
+            ok = False
+            why = "file = `%s` (in %s), directory = `%s`" % (render(fe_p)[:60], short(ffn, 1), render(c["args"][1])[:60])
+            if fe_p["k"] == "MCall" and fe_p["m"] == "join" and fe_p["args"] and peel(fe_p["args"][0]).get("v") == fname:
+                base = resolve_root(ffn, fh, fe_p["recv"])
+                droot = resolve_root(name, h, c["args"][1])
+                ok = base[1] is not None and base == droot
+                why += "; the file is looked for below %s, the patterns are anchored at %s" % (base, droot)
+            ctx.obligation(ok)
+            if not ok:
+                ctx.violation("ignore-dir/%s" % tool, ctx.where(name, c),
+                              "the patterns of %s must be anchored at the directory that holds the file (`dir.join(%r)` and `dir` of the same place); found %s: "
+                              "searched from a sub-directory, patterns with a directory part no longer match" % (fname, fname, why))
+    ctx.covered("directory prefix handed to the ignore-file parsers = the directory holding the file", n, distinct_keys=["hg", "docker"])
